@@ -273,14 +273,14 @@ func (fr *fmtRun) genTrees() error {
 
 // fmtPinned: the minimal reproducer of every listed finding; always run, attributed like any other case.
 var fmtPinned = []string{
-	"a - (b - c)", "a == (b == c)", "a = (b = c)", "a + (b + c)",
+	"a - (b - c)", "a == (b == c)", "a = (b = c)", "a + (b + c)", "a ^ ((b - c) ^ d)", "a | ((b + c) | d)",
 	"a - -b", "a + +b", "a - --b",
 	"x = \"\\x07\\x08\\x0b\\x0c\"",
 	"a + (x => x)", "-(x => x)",
 	"(a + b)(1)", "(-a)(1)",
 	"{(a || b): 1}", "{1: (a && b)}",
 	"(1).key",
-	"a[1:]",
+	"a[1:]", "[1:] + b",
 	"a; -b", "a; ++b", "f(a); ^b",
 	"a; b", "1; a", "return a; b",
 	"a; (b + c) * d", "a; [1, 2][0]",
